@@ -79,6 +79,7 @@ class Fn:
         self.blocks = d["blocks"]
         self.span = d["span"]
         self.upvars = d.get("upvars", [])
+        self.promoted = d.get("promoted", [])
 
     def __repr__(self):
         return "<Fn %s>" % self.npath
